@@ -7,11 +7,13 @@ REN = ['-DStatAlloc=real_StatAlloc', '-DStatInit=real_StatInit', '-DPrintStat=re
        '-DDestroy_CompCol_Permuted=real_Destroy_CompCol_Permuted', '-Dsuperlu_abort_and_exit=real_superlu_abort_and_exit']
 XDRV_SRCS = [('pdgssvx.c', MALLOC), ('pdutil.c', MALLOC), ('util.c', MALLOC + REN), 'lsame.c', 'pmemory.c']
 
-def xdrv_query(pid, fact=0, nr=0, memfail=False, timeout=900):
+def xdrv_query(pid, fact=0, nr=0, memfail=False, timeout=900, nrhs=1):
     defs = {'NN': 2, 'XD_FACT': fact, 'XD_NR': nr}
+    if nrhs > 1:
+        defs['XD_NRHS'] = nrhs
     if memfail:
         defs['XD_MEMFAIL'] = None
-    q = Query('%s.xdrv.d.f%d.%s%s' % (pid, fact, 'nr' if nr else 'nc', '.memfail' if memfail else ''), 'xdrv_h.c', XDRV_SRCS, defs=defs, engine='sat', unwind=6, timeout=timeout, solver='minisat',
+    q = Query('%s.xdrv.d.f%d.%s%s' % (pid, fact, 'nr' if nr else 'nc', ('.memfail' if memfail else '') + ('.r%d' % nrhs if nrhs > 1 else '')), 'xdrv_h.c', XDRV_SRCS, defs=defs, engine='sat', unwind=6, timeout=timeout, solver='minisat',
               group='expert driver wiring (callees = recording stubs)')
     q.unwind_big = 24
     return q
@@ -21,6 +23,8 @@ def plan(tier, seed, pid='C07'):
     rnd = random.Random(seed)
     qs = [xdrv_query(pid, f, nr) for f in (0, 1, 2) for nr in (0, 1)]
     qs += [xdrv_query(pid, f, nr, memfail=True) for f in (0, 1) for nr in (0,)]
+    # two right-hand sides, B and X with different leading dimensions and sentinel padding rows
+    qs += [xdrv_query(pid, f, nr, nrhs=2) for f in (0, 1, 2) for nr in (0, 1)]
     if pid != 'C07':
         return qs
     # numeric half on the REAL driver and REAL factorization / solve: op(A) X = B for every trans x storage
